@@ -324,6 +324,9 @@ type VerifFullConfig struct {
 	DB       *VerifRecDB
 	WalDir   string // directory; the WAL file is <WalDir>/cs.wal/wal
 	WalImage []byte // if non-nil, written as the WAL file before opening it
+	// WalRotated: the image is written as the rotated file <wal>.000 and no head file exists (a crash right after the
+	// group rotated its head)
+	WalRotated bool
 	Rec      *VerifRecorder
 	// Genesis, when set, replaces the built-in single-validator genesis (e.g. a shipped genesis file).
 	// It is used read-only except for what Genesis.ToBlock itself does to its Alloc map: pass a fresh
@@ -456,7 +459,11 @@ func VerifBootFull(c VerifFullConfig) (n *VerifNode, err error) {
 		return nil, err
 	}
 	if c.WalImage != nil {
-		if err := os.WriteFile(walFile, c.WalImage, 0600); err != nil {
+		to := walFile
+		if c.WalRotated {
+			to = walFile + ".000"
+		}
+		if err := os.WriteFile(to, c.WalImage, 0600); err != nil {
 			return nil, err
 		}
 	}
